@@ -163,6 +163,75 @@ fn const_case(st: &mut Stats, k: usize, list: &[u8], nat: &[u8], rep_ty: &[u16],
     });
 }
 
+thread_local! {
+    static SOLO_CLONES: std::cell::Cell<u32> = const { std::cell::Cell::new(0) };
+}
+/// an element that is `Clone` only on paper: one copy of it needs no clone at all, and the
+/// native repeat literal `[x; 1]` / `[x; 0]` accepts it.  Cloning it is recorded and panics.
+struct Solo(Tok);
+impl Clone for Solo {
+    fn clone(&self) -> Solo {
+        SOLO_CLONES.with(|c| c.set(c.get() + 1));
+        panic!("Solo::clone called");
+    }
+}
+fn solo() -> Solo {
+    ONCE.with(|o| *o.borrow_mut() += 1);
+    let t = Tok::fresh();
+    MADE.with(|m| m.borrow_mut().push(t.key()));
+    Solo(t)
+}
+
+/// repeat forms of length 0 and 1 with a value that cannot be cloned: `arr!` and `box_arr!`
+/// must both do what the native literal does — evaluate x once; hold x itself (N = 1) or drop
+/// it (N = 0); never call Clone.
+fn solo_case(st: &mut Stats, form: &'static str, n: usize, build: impl FnOnce() -> (usize, Vec<u64>) + std::panic::UnwindSafe) {
+    st.check_case("C20", form, "Solo(clone panics)", || format!("C20 {form} Solo N={n}"), true, || {
+        reset();
+        SOLO_CLONES.with(|c| c.set(0));
+        vkit::ledger::begin_case();
+        let r = std::panic::catch_unwind(build);
+        let clones = SOLO_CLONES.with(|c| c.get());
+        let evaluated = ONCE.with(|o| *o.borrow());
+        let made = MADE.with(|m| m.borrow().clone());
+        let leaks = vkit::ledger::end_case(false);
+        let Ok((len, got)) = r else {
+            return Err(format!("Panic: {form} with N = {n} panicked ({clones} Clone::clone calls) where the native literal [x; {n}] just moves x"));
+        };
+        if clones != 0 {
+            return Err(format!("EvaluationCount: {clones} Clone::clone calls for {n} copies of x"));
+        }
+        if evaluated != 1 {
+            return Err(format!("EvaluationCount: the repeated expression was evaluated {evaluated} times"));
+        }
+        if len != n || got.len() != n {
+            return Err(format!("InferredLength: {form} gives length {len}, N = {n}"));
+        }
+        if n == 1 && got != made {
+            return Err("Contents: the single element is not the value of x".into());
+        }
+        if !leaks.is_empty() {
+            return Err(format!("Contents: ownership of x: {}", vkit::ledger::describe(&leaks)));
+        }
+        Ok(())
+    });
+}
+
+fn solo_repeats(st: &mut Stats) {
+    // the native literal is the reference: these lines must compile and move x
+    let nat1: [Solo; 1] = [solo(); 1];
+    let nat0: [Solo; 0] = [solo(); 0];
+    drop((nat1, nat0));
+    solo_case(st, "arr![x; Ty]", 1, || { let a = arr![solo(); U1]; (len_of(&a), a.iter().map(|s| s.0.key()).collect()) });
+    solo_case(st, "arr![x; expr]", 1, || { let a = arr![solo(); 1]; (len_of(&a), a.iter().map(|s| s.0.key()).collect()) });
+    solo_case(st, "box_arr![x; Ty]", 1, || { let a = box_arr![solo(); U1]; (len_of(&*a), a.iter().map(|s| s.0.key()).collect()) });
+    solo_case(st, "box_arr![x; expr]", 1, || { let a = box_arr![solo(); 1]; (len_of(&*a), a.iter().map(|s| s.0.key()).collect()) });
+    solo_case(st, "arr![x; Ty]", 0, || { let a = arr![solo(); U<0>]; (len_of(&a), a.iter().map(|s| s.0.key()).collect()) });
+    solo_case(st, "arr![x; expr]", 0, || { let a = arr![solo(); 0]; (len_of(&a), a.iter().map(|s| s.0.key()).collect()) });
+    solo_case(st, "box_arr![x; Ty]", 0, || { let a = box_arr![solo(); U<0>]; (len_of(&*a), a.iter().map(|s| s.0.key()).collect()) });
+    solo_case(st, "box_arr![x; expr]", 0, || { let a = box_arr![solo(); 0]; (len_of(&*a), a.iter().map(|s| s.0.key()).collect()) });
+}
+
 include!("../arrmac_gen.rs");
 
 fn main() {
@@ -176,6 +245,7 @@ fn main() {
     }
     if args.part_on("repeats") {
         all_repeats(&mut st, args.maxn);
+        solo_repeats(&mut st);
         if args.maxn >= 4096 {
             big_repeats(&mut st);
         }
